@@ -261,7 +261,9 @@ func c14Equal(got, want rule.Rule, alts map[int][][3]string) string {
 			a, b := g.Filters[i], w.Filters[i]
 			okAlt := false
 			for _, alt := range alts[i] {
-				if strings.TrimSpace(a.LHS) == strings.TrimSpace(alt[0]) && a.Comparator == alt[1] && strings.TrimSpace(a.RHS) == strings.TrimSpace(alt[2]) {
+				// the value must be the complete text after the operator, blanks included; only blanks between
+				// the field name and the operator are compared trimmed
+				if strings.TrimSpace(a.LHS) == strings.TrimSpace(alt[0]) && a.Comparator == alt[1] && a.RHS == alt[2] {
 					okAlt = true
 				}
 			}
@@ -469,7 +471,7 @@ func init() {
 		Rule: "cases = argv lists built from a grammar (-a/-A in both orders and with bad parts, -F with valid fields and junk before the field name, every operator and operator look-alike, values containing spaces, tabs, newlines, '=', operator characters, quotes, backslashes; -C; -S/-k comma lists; -p; -w; -D; repeated single-valued flags; stray positional words, '-', '--', unknown flags at every position; delete/watch/syscall flags mixed; a flag missing its argument) joined with the harness's own POSIX single-quote quoting, so the argv is known independently of the library's tokenizer. The harness interprets the argv itself: either 'must be rejected' (with the reason) or the exact rule a faithful parse returns. distinct_nontrivial = distinct lines that contain a quoted argument, a stray word, a repeated flag or a filter whose value holds an operator character or blank.",
 		Assumptions: []string{
 			"an error result is always acceptable (statement: error OR faithful rule); the accepted fraction is reported and a run that accepts nothing is inconclusive",
-			"blanks around list items and around the field/value of a filter are compared trimmed; a repeated single-valued flag with identical values is accepted",
+			"blanks around list items and between a filter's field name and its operator are compared trimmed (the value of a filter is compared exactly); a repeated single-valued flag with identical values is accepted",
 			"value-taking flags consume the next token even when it starts with '-' (getopt and Go flag semantics agree)",
 		},
 		Phases: plainPhase("argv"),
